@@ -40,7 +40,7 @@ EXPLANATION = (
     "get_content for seek/budget discipline; should_return_304/check_etag_header for total date parsing, timezone normalisation before comparison and symmetric weak comparison."
 )
 NOT_DECIDED = (
-    "the arithmetic on start/end/size (which of 200/206/416 a given numeric range yields, Content-Range numbers, slice equality with the file), "
+    "the range arithmetic beyond the enumerated finite domain (first/last <= 9, sizes <= 6; decided exhaustively there by AST interpretation), value-position 'x or default' with a non-zero default, "
     "ETag value computation, and whitespace tolerance of the Range grammar beyond the integer fields"
 )
 LEVEL_NOTE = "structural necessary conditions; RequestHandler.set_header/flush/finish semantics are trusted (HEAD bodies are dropped by flush)"
@@ -409,6 +409,203 @@ def rule_304(ck):
     ck.ob("C27.conditional", ce, ce.node, len(reads) >= 1, "check_etag_header compares against the Etag response header already set", construct="reads self._headers['Etag']")
 
 
+def rule_truthiness(ck):
+    from ..x_optint import check_truthiness
+    total = 0
+    for rel, qn in ((HU, "_parse_request_range"), (HU, "_get_content_range"), (WEB, SFH + ".get"), (WEB, SFH + ".get_content")):
+        fi = ck.func(rel, qn)
+        total += check_truthiness(ck, "C27.none-vs-zero", fi)
+    ck.floor("C27.none-vs-zero", total, 6, "int-or-None byte positions in the range code")
+
+
+def _range_regions(ck):
+    """(parser tail statements, names of first/last) and (get region statements, names)."""
+    prr = ck.func(HU, "_parse_request_range")
+    body = prr.node.body
+    ti = [i for i, st in enumerate(body) if isinstance(st, ast.Try) and any(q.call_attr(c) in ("_int_or_none", "int") for c in q.calls(st))]
+    if len(ti) != 1:
+        raise AnalysisError("C27.range-model: the try block converting the two positions was not found at the top level of _parse_request_range (unknown idiom)")
+    tr = body[ti[0]]
+    conv = [a for a in tr.body if isinstance(a, ast.Assign) and isinstance(a.value, ast.Call) and q.call_attr(a.value) in ("_int_or_none", "int") and isinstance(a.targets[0], ast.Name)]
+    if len(conv) != 2:
+        raise AnalysisError("C27.range-model: expected two integer conversions (first, last) in _parse_request_range")
+    # which is first / last: order of the partition pieces they convert
+    parts = [a for a in body[:ti[0]] if isinstance(a, ast.Assign) and isinstance(a.targets[0], ast.Tuple) and isinstance(a.value, ast.Call) and q.call_attr(a.value) == "partition" and q.is_const(a.value.args[0], "-")]
+    if len(parts) != 1 or len(parts[0].targets[0].elts) != 3:
+        raise AnalysisError("C27.range-model: 'first, _, last = value.partition(\"-\")' not found")
+    p_first, _, p_last = [q.dotted(e) for e in parts[0].targets[0].elts]
+    names = {}
+    for a in conv:
+        arg = q.dotted(a.value.args[0]) if a.value.args else None
+        if arg == p_first:
+            names["first"] = a.targets[0].id
+        elif arg == p_last:
+            names["last"] = a.targets[0].id
+    if set(names) != {"first", "last"}:
+        raise AnalysisError("C27.range-model: cannot tell which conversion is the first/last byte position")
+    tail = body[ti[0] + 1:]
+    return prr, tail, names
+
+
+def rule_range_model(ck):
+    """Exhaustive evaluation (finite domain) of parser tail + range block of get() against RFC 9110 14.1.2."""
+    from ..x_eval import Evaluator
+    prr, tail, names = _range_regions(ck)
+    get = ck.func(WEB, SFH + ".get")
+    gcr = ck.func(HU, "_get_content_range")
+    gbody = get.node.body
+    szi = [i for i, st in enumerate(gbody) if isinstance(st, ast.Assign) and isinstance(st.value, ast.Call) and q.dotted(st.value.func) == "self.get_content_size"]
+    cli = [i for i, st in enumerate(gbody) if isinstance(st, ast.Expr) and q.is_call(st.value, "self.set_header") and _hdr_is(st.value, "Content-Length")]
+    if len(szi) != 1 or len(cli) != 1 or szi[0] >= cli[0]:
+        raise AnalysisError("C27.range-model: range block of get() (size = ... up to the Content-Length header) not found at the top level (unknown idiom)")
+    region = gbody[szi[0]:cli[0] + 1]
+    rr = [a.targets[0].id for a in q.walk_body(get.node) if isinstance(a, ast.Assign) and isinstance(a.value, ast.Call) and q.call_attr(a.value) == "_parse_request_range" and isinstance(a.targets[0], ast.Name)]
+    if len(set(rr)) != 1:
+        raise AnalysisError("C27.range-model: parsed-range variable not identified")
+    rr = rr[0]
+    gcs = [c for c in q.calls(get.node) if q.dotted(c.func) == "self.get_content"]
+    if len(gcs) != 1 or len(gcs[0].args) < 3:
+        raise AnalysisError("C27.range-model: self.get_content(path, start, end) call not found")
+    sv, evn = [q.dotted(a) for a in gcs[0].args[1:3]]
+
+    POS = [None, 0, 1, 2, 3, 5, 6, 9]
+    SIZES = [0, 1, 2, 3, 6]
+
+    def expected(first, last, size):
+        whole = ("200",)
+        if first is None and last is None:
+            return {whole}
+        if first is None:
+            if last == 0 or size == 0:
+                return {("416",)}
+            a, b = max(size - last, 0), size - 1
+        elif last is None:
+            if first >= size:
+                return {("416",)}
+            a, b = first, size - 1
+        else:
+            if last < first:
+                return {("416",), whole}
+            if first >= size:
+                return {("416",)}
+            a, b = first, min(last, size - 1)
+        if a == 0 and b == size - 1:
+            return {("206", a, b), whole}
+        return {("206", a, b)}
+
+    fails = {"suffix (bytes=-N)": None, "open (bytes=F-)": None, "closed (bytes=F-L)": None, "empty (bytes=-)": None}
+    count = 0
+    for first in POS:
+        for last in POS:
+            # parser tail
+            ev = Evaluator()
+            kind, val = ev.run(tail, {names["first"]: first, names["last"]: last})
+            if kind == "raise":
+                parsed = ("raise", val)
+            elif kind == "return":
+                parsed = val
+            else:
+                raise AnalysisError("C27.range-model: _parse_request_range falls off its end")
+            for size in SIZES:
+                count += 1
+                cls = "empty (bytes=-)" if first is None and last is None else "suffix (bytes=-N)" if first is None else "open (bytes=F-)" if last is None else "closed (bytes=F-L)"
+                spec = "bytes=%s-%s on %d bytes" % ("" if first is None else first, "" if last is None else last, size)
+                if isinstance(parsed, tuple) and parsed and parsed[0] == "raise":
+                    fails[cls] = fails[cls] or "%s: the parser raises %s" % (spec, parsed[1])
+                    continue
+                rec = {"status": 200, "hdr": {}}
+
+                def call(name, args, kwargs, node, ev2, rec=rec, size=size):
+                    if name == "self.get_content_size":
+                        return size
+                    if name == "self.set_status":
+                        rec["status"] = args[0]
+                        return None
+                    if name == "self.set_header":
+                        rec["hdr"][args[0]] = args[1]
+                        return None
+                    if name.split(".")[-1] == "_get_content_range":
+                        return ev2.call_function(gcr.node, args)
+                    raise AnalysisError("C27.range-model: call %s in the range block of get() is not modelled" % name)
+
+                ev2 = Evaluator(call=call)
+                env = {rr: parsed}
+                kind2, val2 = ev2.run(region, env)
+                if kind2 == "raise":
+                    fails[cls] = fails[cls] or "%s: get() raises %s" % (spec, val2)
+                    continue
+                st = rec["status"]
+                exp = expected(first, last, size)
+                got = None
+                why = None
+                if st == 416:
+                    got = ("416",)
+                    if kind2 != "return":
+                        why = "416 does not return before the body"
+                    elif rec["hdr"].get("Content-Range") != "bytes */%d" % size:
+                        why = "416 Content-Range is %r" % rec["hdr"].get("Content-Range")
+                else:
+                    if kind2 == "return":
+                        why = "returns early with status %s" % st
+                    else:
+                        s0, e0 = env.get(sv, "unbound"), env.get(evn, "unbound")
+                        if s0 == "unbound" or e0 == "unbound" or (s0 is not None and (not isinstance(s0, int) or s0 < 0)) or (e0 is not None and not isinstance(e0, int)):
+                            why = "get_content would be called with (%r, %r)" % (s0, e0)
+                        else:
+                            sl = list(range(size))[s0:e0]
+                            cl = rec["hdr"].get("Content-Length")
+                            if st == 206:
+                                if not sl:
+                                    got = ("206", None, None)
+                                    why = "206 with an empty body"
+                                else:
+                                    got = ("206", sl[0], sl[-1])
+                                    if sl != list(range(sl[0], sl[-1] + 1)):
+                                        why = "non-contiguous body"
+                                    elif rec["hdr"].get("Content-Range") != "bytes %d-%d/%d" % (sl[0], sl[-1], size):
+                                        why = "Content-Range %r does not describe the body bytes %d-%d" % (rec["hdr"].get("Content-Range"), sl[0], sl[-1])
+                                    elif cl != len(sl):
+                                        why = "Content-Length %r for a body of %d bytes" % (cl, len(sl))
+                            elif st == 200:
+                                got = ("200",)
+                                if sl != list(range(size)):
+                                    why = "status 200 but the body is bytes %s" % (sl,)
+                                elif "Content-Range" in rec["hdr"]:
+                                    why = "status 200 with a Content-Range"
+                                elif cl != size:
+                                    why = "Content-Length %r for a body of %d bytes" % (cl, size)
+                            else:
+                                why = "unexpected status %r" % st
+                if why is None and got not in exp:
+                    why = "answered %s, RFC 9110 14.1.2 requires %s" % (" ".join(map(str, got)), " or ".join(" ".join(map(str, e)) for e in sorted(exp, key=str)))
+                if why is not None and fails[cls] is None:
+                    fails[cls] = "%s: %s" % (spec, why)
+    for cls, f in fails.items():
+        ck.ob("C27.range-model", get, get.node, f is None,
+              "%s ranges: parser tail + range block of get() + _get_content_range evaluated exhaustively for first/last in %s and sizes %s agree with RFC 9110 14.1.2 (status, Content-Range, Content-Length, body slice)%s" % (cls, POS, SIZES, "" if f is None else " — counterexample: " + f),
+              construct="range model: %s" % cls)
+    ck.note("C27.range-model: %d (first, last, size) combinations evaluated by AST interpretation (no tornado code executed)" % count)
+
+
+def rule_body_exact(ck):
+    """The bytes written are the bytes read (no strip/replace/decode between file and socket)."""
+    from ..x_exact import check_exact
+    get = ck.func(WEB, SFH + ".get")
+    n = 0
+    for nd, c in call_sites(get, "self.write"):
+        if not c.args:
+            raise AnalysisError("StaticFileHandler.get: self.write() without argument")
+        check_exact(ck, "C27.body-exact", get, c.args[0], [], "chunk written to the client", passthrough={"self.get_content": None}, site=c)
+        n += 1
+    gc = ck.func(WEB, SFH + ".get_content")
+    for nd, y in gc.cfg.find(lambda x: isinstance(x, ast.Yield)):
+        if y.value is None:
+            raise AnalysisError("get_content: bare yield")
+        check_exact(ck, "C27.body-exact", gc, y.value, [], "chunk yielded by get_content", passthrough={"read": None}, site=y)
+        n += 1
+    ck.floor("C27.body-exact", n, 2, "write/yield sites")
+
+
 def run(ck):
     ck.rule("C27.sint", "SINT: every int() on Range header text has an ASCII-digits guard (regex inclusion in [0-9]+) and a handled ValueError / length bound")
     ck.rule("C27.invalid-ignored", "a Range header that is not 'bytes=<valid ints>' yields None from the parser and is never unpacked by get()")
@@ -425,6 +622,18 @@ def run(ck):
     rule_content_range(ck)
     rule_get_content(ck)
     rule_304(ck)
+    ck.rule("C27.none-vs-zero", "int-or-None byte positions are never tested by truthiness (0 is a legal position/length)")
+    ck.rule("C27.range-model", "finite-domain evaluation: for every small (first, last, size) the parser tail and get()'s range block yield the RFC 9110 status, Content-Range, Content-Length and body slice")
+    rule_truthiness(ck)
+    try:
+        rule_range_model(ck)
+    except AnalysisError as e:
+        # the model needs the anchored shape; when other rules already report this tree, say so instead of masking them
+        if not ck.violations:
+            raise
+        ck.note("C27.range-model not evaluated (%s); violations of other rules are reported" % e)
+    ck.rule("C27.body-exact", "file chunks travel from file.read() through get_content's yield to self.write() unchanged (aliases/slices only)")
+    rule_body_exact(ck)
 
 
 # ---------------------------------------------------------------------------
@@ -473,6 +682,17 @@ def _swap_set_headers(root):
 
 
 MUTANTS = [
+    ("seeded C27-adv1: parser tail flattened to truthiness ('elif end:'), bytes=0-0 -> (0, 0)", _h("_parse_request_range", lambda root: _flatten_tail(root)), ("C27.none-vs-zero", "C27.range-model")),
+    ("none-vs-zero: get() normalises a negative start only 'if start' (truthiness)", _w(SFH + ".get", replace_expr(lambda n: isinstance(n, ast.BoolOp) and _src(n) == "start is not None and start < 0", lambda n: parse_expr("start and start < 0"))), "C27.none-vs-zero"),
+    ("none-vs-zero: content length picks 'end - start' only 'if start and end'", _w(SFH + ".get", replace_expr(lambda n: isinstance(n, ast.BoolOp) and _src(n) == "start is not None and end is not None", lambda n: parse_expr("start and end"))), ("C27.none-vs-zero", "C27.range-model")),
+    ("range-model: 'start >= size' loosened to 'start > size' (bytes=N- on N bytes -> 206 with empty body)", _w(SFH + ".get", replace_expr(lambda n: isinstance(n, ast.Compare) and _src(n) == "start >= size", lambda n: parse_expr("start > size"))), "C27.range-model"),
+    ("range-model: end not capped at the file size", _w(SFH + ".get", remove_stmts(lambda st: isinstance(st, ast.If) and _src(st.test) == "end is not None and end > size")), "C27.range-model"),
+    ("range-model: suffix longer than the file not clamped to 0", _w(SFH + ".get", remove_stmts(lambda st: isinstance(st, ast.If) and _src(st.test) == "start < 0")), "C27.range-model"),
+    ("range-model: inclusive last position not converted (end += 1 dropped)", _h("_parse_request_range", remove_stmts(lambda st: isinstance(st, ast.AugAssign) and _src(st) == "end += 1")), "C27.range-model"),
+    ("range-model: _get_content_range reports the exclusive end", _h("_get_content_range", replace_expr(lambda n: isinstance(n, ast.BinOp) and isinstance(n.op, ast.Sub) and _src(n) == "(end or total) - 1", lambda n: n.left)), "C27.range-model"),
+    ("range-model: 206 decided by 'end != size' only (bytes=0-<last> of the whole file mislabelled)", _w(SFH + ".get", replace_expr(lambda n: isinstance(n, ast.Compare) and _src(n) == "size != (end or size) - (start or 0)", lambda n: parse_expr("start is not None and start > 0"))), "C27.range-model"),
+    ("body-exact: chunk newline-normalised before writing", _w(SFH + ".get", replace_expr(lambda n: isinstance(n, ast.Call) and q.dotted(n.func) == "self.write", lambda n: parse_expr("self.write(chunk.replace(b'\\r\\n', b'\\n'))"))), "C27.body-exact"),
+    ("body-exact: get_content yields chunk.rstrip()", _w(SFH + ".get_content", replace_expr(lambda n: isinstance(n, ast.Yield), lambda n: ast.Yield(value=parse_expr("chunk.rstrip()")))), "C27.body-exact"),
     ("undo the F19 repair: bare int() on Range text (digits guard removed)", _h("_int_or_none", remove_stmts(lambda st: isinstance(st, ast.If) and "fullmatch" in _src(st.test))), "C27.sint"),
     ("weaken the F19 repair: guard uses \\d+ (non-ASCII digits accepted)", _h("_int_or_none", replace_expr(lambda n: isinstance(n, ast.Constant) and n.value == "[0-9]+", lambda n: ast.Constant(value="\\d+"))), "C27.sint"),
     ("weaken the F19 repair: guard uses match() instead of fullmatch() ('1_0' accepted)", _h("_int_or_none", replace_expr(lambda n: isinstance(n, ast.Attribute) and n.attr == "fullmatch", lambda n: ast.Attribute(value=n.value, attr="match", ctx=ast.Load()))), "C27.sint"),
@@ -525,4 +745,17 @@ def _unwrap_try2(root):
                 if isinstance(st, ast.Try) and "parsedate" in _src(st):
                     body[i:i + 1] = st.body
                     return True
+    return False
+
+
+def _flatten_tail(root):
+    for i, st in enumerate(root.body):
+        if isinstance(st, ast.If) and _src(st.test) == "end is not None":
+            root.body[i:i + 1] = ast.parse(
+                "if start is None:\n"
+                "    if end:\n"
+                "        start, end = -end, None\n"
+                "elif end:\n"
+                "    end += 1\n").body
+            return True
     return False
